@@ -448,7 +448,13 @@ func createSelectFieldFromByItem(p *SelectPlan, item *ast.ByItem) (*ast.SelectFi
 		return &ast.SelectField{Expr: item.Expr}, nil
 	case *ast.AggregateFuncExpr:
 		// 处理 order by max()/min() 等情况
-		return &ast.SelectField{Expr: item.Expr}, nil
+		// the column names below the function are rewritten; the appended field is the same expression
+		expr, err := rewriteColumnNamesInExpr(p.TableAliasStmtInfo, item.Expr)
+		if err != nil {
+			return nil, fmt.Errorf("rewrite column names in ByItem.Expr error: %v", err)
+		}
+		item.Expr = expr
+		return &ast.SelectField{Expr: expr}, nil
 	case *ast.ColumnNameExpr:
 		columnExpr = item.Expr.(*ast.ColumnNameExpr)
 	default:
